@@ -195,3 +195,15 @@ register('C16', 'translation_validation',
          "reals for floats; 1..3 units per population, two populations, sparse signed non-square matrices; dynamic "
          "(state-bearing) coupling edges are not generated (outside); einsum is a library model validated per run",
          "SMT translation validation of population vs explicit network (symx + z3)", "7/C16")
+register('C12', 'translation_validation',
+         "The text emitted by get_run_func is executed in forward-mode automatic differentiation over z3 terms (state "
+         "entries, and every value read from the symbolic history, are dual numbers), which yields the exact symbolic "
+         "partial derivatives of THE FUNCTION THAT WAS RETURNED; the text emitted by get_jacobian_func is executed "
+         "symbolically; z3 proves every entry (i, j) of every returned matrix equal to d f_i / d y_j (resp. "
+         "d f_i / d hist(t - tau)[j] for each distinct delay), zero entries included, in the run function's state order. "
+         "sparse=True goes through the same entries inside the csr container. Counterexamples are replayed with central "
+         "differences of the real vector field in float64.",
+         "reals for floats; scalar models (vectorize=False) with <= 5 states, <= 2-3 distinct delays; functions tanh sin "
+         "cos exp sigmoid arctan sinh cosh absv tan, cubic/rational terms, algebraic intermediates, edges; abs at "
+         "argument 0 excluded; default backend; the auto-07p DFDU/DFDP blocks belong to C18",
+         "forward-mode AD of the emitted vector field vs emitted Jacobian, decided by z3 (symx)", "7/C12")
